@@ -677,6 +677,50 @@ Fixpoint body_guard_g (full : bool) (num : sname -> nat) (G : env) (rt : ty) (bo
       end
   end.
 
+(* ---- a syntactic class of statements for which the definitions of ONE statement can always be
+   read simultaneously (P_Texp.class_stmt_sound): what qlasskit.ast2ast emits ---- *)
+Fixpoint fv (e : pexp) : list ident :=
+  match e with
+  | EName x | ESub x _ => [x]
+  | EBoolOp _ l | ETuple l => flat_map fv l
+  | EUn _ a | EInt a | EFloat a => fv a
+  | EIf c t f => fv c ++ fv t ++ fv f
+  | ECmp _ a b | EBin _ a b => fv a ++ fv b
+  | _ => []
+  end.
+(* x is not read by e *)
+Definition fresh_in (x : ident) (e : pexp) : bool := negb (existsb (Nat.eqb x) (fv e)).
+(* e reads x only as the "unchanged" branch of if-expressions whose tests and other branches do not
+   read x: `X if c else x`, `x if c else X`, nested (what an `if` statement becomes) *)
+Fixpoint selfite (x : ident) (e : pexp) : bool :=
+  match e with
+  | EName y => Nat.eqb y x
+  | EIf c t f =>
+      fresh_in x c && ((selfite x t && (selfite x f || fresh_in x f)) || (fresh_in x t && selfite x f))
+  | _ => false
+  end.
+Definition stmt_class (s : pstmt) : bool :=
+  match s with
+  | SAssign x e => fresh_in x e || selfite x e
+  | SReturn e => fresh_in ret_id e
+  | SExpr _ => true
+  | SRaise => true
+  end.
+
+(* the side condition of the statement theorems: in the class, or seq_ok evaluated on the program *)
+Definition stmt_guard2 (num : sname -> nat) (G : env) (rt : ty) (s : pstmt) : bool :=
+  stmt_class s || stmt_guard_g false num G rt s.
+Fixpoint body_guard2 (num : sname -> nat) (G : env) (rt : ty) (body : list pstmt) : bool :=
+  match body with
+  | [] => true
+  | s :: r =>
+      stmt_guard2 num G rt s &&
+      match trans_stmt num G rt s with
+      | Some dg => body_guard2 num (snd dg) rt r
+      | None => true
+      end
+  end.
+
 Definition res_guard := res_guard_g false.
 Definition stmt_guard := stmt_guard_g false.
 Definition body_guard := body_guard_g false.
